@@ -34,6 +34,8 @@ class Registry:
         self.lemmas = []           # (name, props, callable() -> (assumptions list, goal)) -- L obligations over contracts
         self.canaries = []         # (name, callable(registry) -> Contract variant that must be refuted, clause name)
         self.named_sorts = {}
+        self.ctypes = {}           # C type name -> Sort (Cython front end)
+        self.pointees = set()      # classes that model the target of a C pointer (ptr[0] dereferences)
 
     def declare_class(self, cls, fields, ctor=None):
         d = {}
@@ -46,6 +48,9 @@ class Registry:
         if ctor is not None:
             self.ctor_fields[cls] = ctor
         self.named_sorts[cls] = REF(cls)
+
+    def is_pointee(self, cls):
+        return cls in self.pointees
 
     def is_ghost(self, cls, field):
         return "%s.%s" % (cls, field) in self.ghost_fields
